@@ -615,9 +615,9 @@ def render_token_gen(t: dict) -> str:
 #            "ops": [["lock", p, custom|None], ["unlock", p, custom|None], ["force", p], ["islocked", p],
 #                    ["call", p, "b"|"n"], ["burn", ctxidx]]}
 
-HARD_WAIT = 8.0       # a reply that takes longer than this is a hang (never reached on the unchanged tree)
-HARD_WAIT_AFTER = 0.5 # ... and once HARD_BUDGET such hangs were seen in a run, nobody is waited for longer than this
-HARD_BUDGET = 6
+HARD_WAIT = 5.0       # a reply that takes longer than this is a hang (never reached on the unchanged tree)
+HARD_WAIT_AFTER = 0.25# ... and once HARD_BUDGET such hangs were seen in a run, nobody is waited for longer than this
+HARD_BUDGET = 2
 GRACE = 0.02          # how long a caller is left waiting after the object's worker thread was seen dead
 AFTER_DEATH_OPS = 1   # ops still issued after the worker died (they must all go unanswered)
 RESERVED = ("__ACCESS_DENIED__", "__OBJECT_LOCKED__")
@@ -1435,7 +1435,7 @@ def shrink(hist: dict, sig: str) -> dict:
         return any(s == sig for (s, _, _) in oracle(h, tr))
     ops = list(hist["ops"])
     changed = True
-    budget = 120
+    budget = 40 if sig.startswith(("request-unanswered", "object-disabled", "scenario-aborted")) else 120     # runs with a hang are slow
     while changed and budget > 0:
         changed = False
         i = len(ops) - 1
@@ -2117,6 +2117,141 @@ def fault_specs(quick: bool) -> list:
     return [{"kind": "fault", "state": st, "req": rq} for st in _FAULT_STATES for rq in _FAULT_REQS]
 
 
+_SHUT_STATES = ("free", "held")
+_SHUT_ENDS = ("remove", "stop")
+
+
+def run_shutdown(spec: dict):
+    """Requests of every kind queued behind a parked call, then the object is removed / its context stops (from the context's
+    own thread, as the API demands) while a helper lets the parked call go once shutdown has been requested."""
+    import qmi.core.rpc as rpc
+    from qmi.core.exceptions import QMI_RpcTimeoutException
+    hist = {"srv": "srv", "ctxs": ["cliA", "cliB"], "proxies": [1, 2, 0], "ops": []}
+    A, B, S = 0, 1, 2
+    w = _World(hist)
+    lines, outs, obs = [], [], {}
+    with _WorkerTap() as tap:
+        try:
+            w.start()
+            nonce = [getattr(c, "_instance_id", "") or "-" for c in w.contexts]
+            lines += [f"init srv {nonce[0]}"] + [f"ctx {nm} {nonce[i + 1]}" for i, nm in enumerate(hist["ctxs"])] + [f"proxy {c}" for c in hist["proxies"]]
+            outs += ["ok", "1", "2", "0", "1", "2"]
+            if spec["state"] == "held":
+                lines.append(_op_line(["lock", A, None]))
+                outs.append(w.do_op(["lock", A, None]))
+            parker = A if spec["state"] == "held" else S
+            worker = w.workers["obj"]
+            hold_fut = w.proxies[parker].rpc_nonblocking.hold()
+            if not w.obj.entered.wait(10.0):
+                raise RuntimeError("worker did not enter hold()")
+            lines.append(f"call {parker} n")
+            outs.append("ran 1")
+            old_obj = w.obj
+            futs = []
+            n0 = len(tap.log)
+
+            def lockreq(ci, tok, act):
+                f = rpc.QMI_RpcFuture(w.contexts[ci], w.obj_addr, tok)
+                f.send_lock_rpc_request_message(rpc.QMI_LockRpcAction[act])
+                futs.append((act + ("@srv" if ci == 0 else ""), f))
+            tokA = w.proxies[A]._lock_token
+            # every kind, from a client context and from the owning context, lock requests first in the queue
+            order = spec.get("order", 0)
+            kinds = [("ACQUIRE", 2), ("QUERY", 1), ("RELEASE", 1), ("FORCE_RELEASE", 2), ("call", 1), ("QUERY", 0), ("ACQUIRE", 0), ("call", 0)]
+            kinds = kinds[order:] + kinds[:order]
+            for (kind, ci) in kinds:
+                if kind == "call":
+                    px = w.proxies[S] if ci == 0 else w.proxies[A]
+                    futs.append(("call" + ("@srv" if ci == 0 else ""), px.rpc_nonblocking.bump()))
+                elif kind == "ACQUIRE":
+                    lockreq(ci, w.contexts[ci].make_unique_token(), kind)
+                    lines.append(f"burn {ci}")
+                    outs.append("ok")
+                else:
+                    lockreq(ci, tokA if ci == 1 else None, kind)
+            _wait_until(lambda: _qlen(w) >= len(futs) or _qlen(w) < 0, 5.0)
+            obs["queued"] = _qlen(w)
+
+            def releaser():
+                _wait_until(lambda: getattr(worker, "_shutdown_requested", True), 10.0)
+                time.sleep(0.01)
+                old_obj.release.set()
+            rel = threading.Thread(target=releaser, daemon=True)
+            rel.start()
+            ended = {}
+
+            def end():
+                try:
+                    if spec["end"] == "remove":
+                        w.srv.remove_rpc_object(w.owner_proxy["obj"])
+                    else:
+                        w.srv.stop()
+                    ended["ok"] = True
+                except Exception as e:  # noqa
+                    ended["exc"] = type(e).__name__
+            # remove_rpc_object / stop join the worker; a worker that never ends must not take the harness with it
+            watchdog = threading.Timer(20.0, old_obj.release.set)
+            watchdog.daemon = True
+            watchdog.start()
+            end()
+            watchdog.cancel()
+            rel.join(5.0)
+            obs["ended"] = ended
+            obs["worker_alive"] = worker.is_alive()
+            obs["worker_death"] = _state["instr"].thread_deaths.get(worker) if _state.get("instr") else None
+            answers, grace = [], 5.0
+            for (label, fu) in futs:
+                try:
+                    fu.wait(grace)
+                    answers.append("answered")
+                except QMI_RpcTimeoutException:
+                    answers.append("hang")
+                    grace = 0.02
+                except Exception as e:  # noqa
+                    answers.append("error:" + type(e).__name__)
+            obs["labels"] = [l for l, _ in futs]
+            obs["answers"] = answers
+            obs["handled"] = [ev for ev in tap.log[n0:] if not (ev[0] == "mreq" and ev[1] == "hold")]
+            if spec["end"] == "remove":
+                # the name is free again: a new object under it starts unlocked and serves
+                w._make_object("obj")
+                lines.append("recreate")
+                outs.append("ok")
+                for o in (["islocked", S], ["call", S, "b"], ["lock", B, None], ["call", A, "b"], ["unlock", B, None]):
+                    lines.append(_op_line(o))
+                    outs.append(w.do_op(o))
+                lines += ["owner", "probe"]
+                outs += [_show_tok(w.owner()), w.probe()]
+                obs["after"] = outs[-7:]
+        finally:
+            if w.obj is not None:
+                w.obj.release.set()
+            w.stop()
+    return lines, outs, obs
+
+
+def shutdown_oracle(spec: dict, obs: dict) -> list:
+    tag = f"{spec['end']}:{spec['state']}"
+    fails = []
+    if obs.get("worker_death"):
+        fails.append((f"shutdown:worker-died:{obs['worker_death']}:{tag}", f"the object's worker thread died of {obs['worker_death']} while shutting down"))
+    if "exc" in obs.get("ended", {}):
+        fails.append((f"shutdown:{spec['end']}-raised:{obs['ended']['exc']}:{tag}", "removing the object / stopping the context raised"))
+    lost = [i for i, a in enumerate(obs["answers"]) if a == "hang"]
+    if lost:
+        kinds = "+".join(sorted({obs["labels"][i].split("@")[0] for i in lost}))
+        fails.append((f"request-unanswered-at-shutdown:{kinds}:{tag}",
+                      f"{len(lost)} of {len(obs['answers'])} requests queued behind a running call got no answer when the object went away "
+                      f"(first: #{lost[0]} {obs['labels'][lost[0]]}); labels {obs['labels']}, answers {obs['answers']}"))
+    if obs.get("handled"):
+        fails.append((f"shutdown:request-executed-after-shutdown:{tag}", f"the worker still handled {len(obs['handled'])} queued request(s): {obs['handled'][:2]}"))
+    if spec["end"] == "remove" and not fails:
+        a = obs["after"]      # islocked S, call S, lock B, call A, unlock B, owner, probe
+        if a[0] != "false" or a[1] != "ran 1" or a[2] != "true" or a[3] != "locked" or a[4] != "true" or a[5] != "-" or not a[6].startswith("alive"):
+            fails.append((f"shutdown:recreated-object-not-fresh:{tag}", f"after re-creation: {a}"))
+    return fails
+
+
 def live_queue_bounds() -> list:
     """Finite bounds of the live worker queue and every MAX_* integer of rpc.py / _RpcThread, read on this run."""
     import qmi.core.rpc as rpc
@@ -2485,11 +2620,13 @@ class C04(Prop):
                     break
 
     def _report(self, failures: dict, res: Result, do_shrink: bool = True):
-        shrunk = 0
+        shrunk, spent = 0, 0.0
         for sig, lst in failures.items():
             h, detail = min(lst, key=lambda x: len(x[0]["ops"]))
-            if do_shrink and shrunk < 8:
+            if do_shrink and shrunk < 8 and spent < 40.0:         # shrinking re-runs the real code: keep it within seconds
+                t_s = time.monotonic()
                 small = shrink(h, sig)
+                spent += time.monotonic() - t_s
                 shrunk += 1
             else:
                 small = {k: v for k, v in h.items() if k != "cell"}
@@ -2617,6 +2754,22 @@ class C04(Prop):
                 spans.append((len(all_lines), len(lines), spec))
                 all_lines += lines
                 all_outs += outs
+            for end in _SHUT_ENDS:
+                for state in _SHUT_STATES:
+                    spec = {"kind": "shutdown", "end": end, "state": state, "order": ctx.rng.randrange(8)}
+                    try:
+                        lines, outs, obs = run_shutdown(spec)
+                    except Exception as e:  # noqa
+                        ffail.setdefault(f"scenario-aborted:{type(e).__name__}:shutdown:{end}:{state}", []).append((spec, f"{type(e).__name__}: {str(e)[:200]}"))
+                        continue
+                    res.note_case(("shutdown", end, state, spec["order"]), nontrivial=True)
+                    res.count("shutdown_scenarios")
+                    res.traces_validated += 1
+                    for (sig, detail) in shutdown_oracle(spec, obs):
+                        ffail.setdefault(sig, []).append((spec, detail))
+                    spans.append((len(all_lines), len(lines), spec))
+                    all_lines += lines
+                    all_outs += outs
             bounds = live_queue_bounds()
             res.extra["live_queue_bounds"] = bounds
             sizes = [(b + 60, True) for b in bounds] or [(ctx.scale(2500, 6000), False)]
@@ -2697,7 +2850,7 @@ class C04(Prop):
                 corpus = [h for h in corpus if not h.get("conn")] + conn[ctx.seed % 3::3]
             self._run_batch(ctx, corpus, res, "corpus", failures)
             self._run_batch(ctx, sweep_histories(), res, "sweep", failures)
-            n = ctx.scale(400, 4000)
+            n = ctx.scale(340, 4000)
             max_ops = ctx.scale(40, 400)
             hists = [gen_history(ctx.rng, max_ops if (ctx.quick or i % 8 == 0) else 60) for i in range(n)]
             for i in range(0, len(hists), 100):
@@ -2785,9 +2938,11 @@ class C04(Prop):
 
     # -- replay -----------------------------------------------------------------------------------
     def replay(self, ctx: Ctx, rp: dict):
-        if rp.get("kind") in ("fault", "burst"):
+        if rp.get("kind") in ("fault", "burst", "shutdown"):
             with _Instrumented():
-                if rp["kind"] == "fault":
+                if rp["kind"] == "shutdown":
+                    fs = shutdown_oracle(rp, run_shutdown(rp)[2])
+                elif rp["kind"] == "fault":
                     fs = fault_oracle(rp, run_fault(rp)[2])
                 else:
                     fs = burst_oracle(rp, run_burst(rp)[2])
